@@ -169,6 +169,26 @@ theorem adel_aset_ne (m : List (κ × α)) (k k' : κ) (v : α) (h : k ≠ k') :
 
 namespace Db
 
+/-! ### `clear` resets everything the source resets -/
+
+theorem survives_perFile (slot : Nat) : survivesClear (perFileField slot) = false := by
+  unfold perFileField; split <;> decide
+theorem survives_keyed (m : Nat) : survivesClear (keyedField m) = false := by
+  unfold keyedField; split <;> decide
+theorem survives_nested (m : Nat) : survivesClear (nestedField m) = false := by
+  unfold nestedField; split <;> decide
+theorem survives_owned (m : Nat) : survivesClear (ownedField m) = false := by
+  unfold ownedField; split <;> decide
+theorem survives_inFile (m : Nat) : survivesClear (inFileField m) = false := by
+  unfold inFileField; split <;> decide
+
+theorem clear_eq_new (d : Db) : clear d = Db.new := by
+  have h1 : survivesClear (some ("property_index", "properties")) = false := by decide
+  have h2 : survivesClear (some ("property_index", "property_owners_map")) = false := by decide
+  have h3 : survivesClear (some ("property_index", "in_filed_owner")) = false := by decide
+  have h4 : survivesClear (some ("property_index", "id_count")) = false := by decide
+  simp [clear, Db.new, survives_perFile, survives_keyed, survives_nested, survives_owned, survives_inFile, h1, h2, h3, h4]
+
 /-! ### components untouched by other mutations -/
 
 theorem getOrCreateProp_perFile (d : Db) (o : Owner) : (getOrCreateProp d o).1.perFile = d.perFile := by
